@@ -400,6 +400,7 @@ class Driver:
             "start_calls": getattr(self.backend, "start_calls", 0) if self.backend else 0,
             "stop_calls": getattr(self.backend, "stop_calls", 0) if self.backend else 0,
             "managed": bool(self.case.get("managed")),
+            "timeout_elapsed": getattr(self, "timeout_elapsed", None),
         }
 
     def _collect(self):
@@ -420,6 +421,9 @@ class Driver:
             if self._consumer_idle():
                 self.pending_pull = False
         obs = [o for o in self._collect() if o != ["started"]]
+        if any(o[:2] == ["raised", "timeout"] for o in obs) and ev[0] != "timeout":
+            # a TimeoutError outside a timeout event: how long had the caller been waiting?
+            self.timeout_elapsed = round(time.time() - getattr(self, "pull_t0", time.time()), 2)
         self.events.append(ev)
         self.obs.append(obs)
         self.snaps.append(self._snap())
@@ -539,6 +543,13 @@ class Driver:
         self._record(ev)
 
     def ev_pull(self, ev):
+        nap = self.case.get("sleep_before_first_pull")
+        if nap and not getattr(self, "napped", False) and not self.replay:
+            # let the dispatched batches get old before anybody waits for them: `timeout` bounds the WAIT of the caller,
+            # not the age of a batch
+            self.napped = True
+            time.sleep(nap)
+        self.pull_t0 = time.time()
         self._send(("pull",))
         self.pending_pull = True
         time.sleep(0.001)
@@ -617,6 +628,7 @@ class Driver:
             time.sleep(0.01)
         if self._consumer_idle():
             self.pending_pull = False
+        self.timeout_elapsed = round(time.time() - getattr(self, "pull_t0", time.time()), 2)
         self._record(ev)
 
     # ---------------------------------------------------------------- schedule generation
